@@ -6,7 +6,11 @@
              !<id>                keyF raises error id
      na    (inter/union/diff) number of leading entries that belong to [a]
    answer: OK <indices, comma separated> | OK true/false | OK <index> | EMPTY
-           | ERR D.<lhs>.<rhs> | ERR S.<ty> | ERR U.<id> | PANIC <site> | FUEL *)
+           | ERR D.<lhs>.<rhs> | ERR S.<ty> | ERR U.<id> | PANIC <site> | FUEL
+           followed by  L=<elements on which keyF was applied, in order>
+   The answer comes from the Coq entry points run_* (pure).  The L= field comes from
+   a second run of the same generic model function with a key function that records
+   its calls; both runs must give the same answer (else MODELEXC). *)
 open Model
 open Wire
 
@@ -31,31 +35,63 @@ let show (f : 'a -> ostring) (o : ('a, werr) outcome) : ostring = match o with
 let show_idx (l : nat list) : ostring =
   String.concat "," (List.map (fun i -> Printf.sprintf "%x" (int_of_nat i)) l)
 
-let small_nat (s : ostring) : nat =
+let show_opt (o : (nat option, werr) outcome) : ostring = match o with
+  | Ok None -> "EMPTY"
+  | Ok (Some i) -> "OK\t" ^ show_idx [i]
+  | o -> show (fun _ -> "") o
+
+let small_int (s : ostring) : int =
   let i = int_of_string ("0x" ^ s) in
-  if i < 0 || i > 100000 then failwith "sort: na out of range" else nat_of_int i
+  if i < 0 || i > 100000 then failwith "sort: na out of range" else i
+
+(* [a, a+1, .., a+n-1] as Coq nats *)
+let seq_nat (a : int) (n : int) : nat list = List.init (max n 0) (fun k -> nat_of_int (a + k))
+
+let calls : int list ref = ref []
+
+let logging_keyf (ks : (wkey, werr) outcome list) : nat -> (wkey, werr) outcome =
+  let arr = Array.of_list ks in
+  fun i ->
+    let j = int_of_nat i in
+    calls := j :: !calls;
+    if j < Array.length arr then arr.(j) else failwith "sort: keyF applied outside the script"
+
+let with_log (pure : ostring) (again : unit -> ostring) : ostring =
+  calls := [];
+  let second = again () in
+  if second <> pure then failwith ("sort: logged run differs from the pure run: " ^ second ^ " / " ^ pure);
+  pure ^ "\tL=" ^ String.concat "," (List.rev_map (Printf.sprintf "%x") !calls)
 
 let handle (fields : ostring list) : ostring =
   match fields with
   | op :: keys :: rest ->
       let ks = List.map parse_key (split_on ',' keys) in
-      let na () = match rest with [n] -> small_nat n | _ -> failwith "sort: missing na" in
+      let n = List.length ks in
+      let na () = match rest with [x] -> small_int x | _ -> failwith "sort: missing na" in
+      let kf = logging_keyf ks in
+      let b2s b = if b then "true" else "false" in
       (match op with
-       | "sort" -> show show_idx (run_sort ks)
-       | "uniq" -> show show_idx (run_uniq ks)
-       | "set" -> show show_idx (run_set ks)
-       | "uniqsort" -> show show_idx (run_uniq_sort ks)
-       | "inter" -> show show_idx (run_inter (na ()) ks)
-       | "union" -> show show_idx (run_union (na ()) ks)
-       | "diff" -> show show_idx (run_diff (na ()) ks)
-       | "member" -> show (fun b -> if b then "true" else "false") (run_member ks)
-       | "min" -> (match run_min ks with
-                   | Ok None -> "EMPTY"
-                   | Ok (Some i) -> "OK\t" ^ show_idx [i]
-                   | o -> show (fun _ -> "") o)
-       | "max" -> (match run_max ks with
-                   | Ok None -> "EMPTY"
-                   | Ok (Some i) -> "OK\t" ^ show_idx [i]
-                   | o -> show (fun _ -> "") o)
+       | "sort" -> with_log (show show_idx (run_sort ks)) (fun () -> show show_idx (std_sort kf wcmp (seq_nat 0 n)))
+       | "uniq" -> with_log (show show_idx (run_uniq ks)) (fun () -> show show_idx (std_uniq kf weqv (seq_nat 0 n)))
+       | "set" -> with_log (show show_idx (run_set ks)) (fun () -> show show_idx (std_set kf wcmp weqv (seq_nat 0 n)))
+       | "uniqsort" ->
+           with_log (show show_idx (run_uniq_sort ks))
+             (fun () -> show show_idx (match std_sort kf wcmp (seq_nat 0 n) with
+                                       | Ok s -> std_uniq kf weqv s
+                                       | Err e -> Err e | Panic s -> Panic s | OutOfFuel -> OutOfFuel))
+       | "inter" -> let a = na () in
+           with_log (show show_idx (run_inter (nat_of_int a) ks))
+             (fun () -> show show_idx (std_set_inter kf wcmp (seq_nat 0 a) (seq_nat a (n - a))))
+       | "union" -> let a = na () in
+           with_log (show show_idx (run_union (nat_of_int a) ks))
+             (fun () -> show show_idx (std_set_union kf wcmp (seq_nat 0 a) (seq_nat a (n - a))))
+       | "diff" -> let a = na () in
+           with_log (show show_idx (run_diff (nat_of_int a) ks))
+             (fun () -> show show_idx (std_set_diff kf wcmp (seq_nat 0 a) (seq_nat a (n - a))))
+       | "member" ->
+           with_log (show b2s (run_member ks))
+             (fun () -> show b2s (std_set_member kf wcmp (nat_of_int 0) (seq_nat 1 (n - 1))))
+       | "min" -> with_log (show_opt (run_min ks)) (fun () -> show_opt (std_min_array_idx kf wcmp (seq_nat 0 n)))
+       | "max" -> with_log (show_opt (run_max ks)) (fun () -> show_opt (std_max_array_idx kf wcmp (seq_nat 0 n)))
        | _ -> failwith ("sort: bad op " ^ op))
   | _ -> failwith "sort: bad case"
